@@ -22,8 +22,7 @@ def KindOK (f : Msg) : Prop :=
   else if f.mtype = mSequenceReset then
     f.get? tGapFillFlag = some "Y" ∧ (∃ nw : Int, f.get? tNewSeqNo = some (pyStr nw)) ∧ f.get? tPossDupFlag = none
   else if f.mtype = mLogout then f.get? tPossDupFlag = none
-  else f.mtype ≠ mHeartbeat ∧ f.mtype ≠ mTestRequest ∧
-    (f.get? tPossDupFlag = none ∨ f.get? tPossDupFlag = some "Y")
+  else f.mtype ≠ mHeartbeat ∧ f.mtype ≠ mTestRequest
 
 structure FrameGood (snd tgt : String) (f : Msg) : Prop where
   bs : f.get? tBeginString = some Proto.beginString
